@@ -33,7 +33,7 @@ CLAIMS = {
              "1+1/65536 scale -- so transformed-source fetchers meet masks in both pipelines), run under the default "
              "chain and with PIXMAN_DISABLE (general only); TLC judges every destination pixel, the frame, and that "
              "source and mask are not written. Outside the domain: HSL x component alpha, sRGB/float formats, dithering; "
-             "tolerance class judged on premultiplied inputs only.",
+             "tolerance class judged on premultiplied inputs only. " + 'Sources and masks are also presented under a general affine matrix that samples the same pixels (the arbitrary-affine fetchers, incl. alpha-less component-alpha masks).' + "",
         ref="5 C01"),
     "C10": dict(
         technique="TLA+ Formats spec (format = bit fields decoded from the PIXMAN_FORMAT code): codec laws model-checked "
@@ -54,7 +54,7 @@ CLAIMS = {
              "operator x format x mask sample, fill_boxes / fill_rectangles, composite_glyphs(_no_mask)): the request is "
              "executed on directly addressed images and on accessor-wrapped twins (destination, source, mask, all) and TLC "
              "demands ViaAccessors(req) = Direct(req) on the whole buffer, row padding included. "
-             "sRGB colour channels: end points, monotonicity and round trip only; YUV: alpha and reader agreement only.",
+             "sRGB colour channels: end points, monotonicity and round trip only; YUV: alpha and reader agreement only. " + 'Stores of rows that cross the sizes of the internal scratch buffers (257 .. 2600 pixels) are included for every destination format.' + "",
         ref="5 C10"),
 }
 
